@@ -477,6 +477,8 @@ def st_construction(ctx: Ctx):
         {"k": "union", "of": [sc("bool"), sc("str")], "pipe": True},
         {"k": "tuple_var", "of": {"k": "union", "of": [sc("int"), sc("bool")], "pipe": True}},
         {"k": "union", "of": [sc("float"), sc("int"), {"k": "none"}], "pipe": True},
+        {"k": "tuple_bare", "typing": True},
+        {"k": "opt", "of": {"k": "tuple_bare", "typing": True}},
         {"k": "opt", "of": sc("float")},  # (an int is acceptable for the float member)
         {"k": "union", "of": [sc("float"), sc("str")], "pipe": True},
         {"k": "tuple_var", "of": {"k": "opt", "of": sc("float")}},
